@@ -59,6 +59,9 @@ func (x *Exec) intrinsic(name string, fn *ssa.Function, args []Value) (Value, bo
 	if r, ok := x.native(name, fn, args); ok {
 		return r, true
 	}
+	if r, ok := x.ioNative(name, fn, args); ok {
+		return r, true
+	}
 	switch name {
 	case "internal/bytealg.IndexByte":
 		return x.indexByte(x.sliceBytes(args[0].(SliceV)), args[1].(*Term)), true
@@ -68,6 +71,9 @@ func (x *Exec) intrinsic(name string, fn *ssa.Function, args []Value) (Value, bo
 	dot := strings.LastIndex(name, ".verif")
 	if dot < 0 {
 		return nil, false
+	}
+	if r, ok := x.ioIntrinsic(name[dot+1:], fn, args); ok {
+		return r, true
 	}
 	switch name[dot+1:] {
 	case "verifParse":
